@@ -1,5 +1,6 @@
 import HdModel.Props.C05
 import HdModel.Lemmas.PoolMarker
+import HdModel.Props.Builder
 /-! # C04 — idle connections are reused; HTTP/2 requests to an origin share one connection
 
 Step-level theorems about the pool model, valid in **every** state. -/
